@@ -35,6 +35,36 @@ CHECKS = {
          "enumerated scopes.",
          "Trusts vlib/ref_fa.py (textbook semantics, ~300 lines) and CPython; sizes bounded (<=5 states).",
          "DESIGN.md section 4, C04"),
+ "C05": (PBT + " (reference regex AST -> Thompson NFA, strict recogniser for the ill-formed side); exact language comparison",
+         "Well-formed side: ASTs rendered to text with random surface syntax; Regex(text) must build, its extracted epsilon-NFA must equal "
+         "Thompson(AST) exactly, accepts/to_cfg/contains agree on all words <=3, union/concatenate/kleene_star and | + equal the reference "
+         "combination, str(regex) parses back to the same language, operands keep their meaning. Ill-formed side: 1-2 token edits labelled by a "
+         "strict recogniser; 'ill' must raise MisformedRegexError, 'ok' must be accepted with the right language, nothing but "
+         "MisformedRegexError may escape. Exploration.",
+         "Trusts vlib/ref_regex.py as the reading of the documented grammar; 'grey' strings (missing right operand, empty group, empty text) are free.",
+         "DESIGN.md section 4, C05"),
+ "C08": (PBT + " (bounded language by least fixpoint, no parser); exhaustive small scope in the thorough tier",
+         "Generated grammars (epsilon/unit/recursive/useless productions, shared spellings, reserved fresh names, both constructors): contains, "
+         "`in`, generate_epsilon on every word <=3 over terminals+foreign and the members / some non-members of length 4 must equal membership in the "
+         "reference bounded language. Thorough additionally enumerates every grammar with <=3 productions over {S,A}x{a,b} bodies <=2. Exploration.",
+         "Trusts vlib/ref_cfg.py least fixpoints; <=4 variables, <=8(+) productions.",
+         "DESIGN.md section 4, C08"),
+ "C09": (PBT + " (bounded-language equality + shape predicates on the extracted result)",
+         "For remove_useless_symbols, remove_epsilon, eliminate_unit_productions, to_normal_form the extracted result must generate the same words "
+         "up to length 5 (minus epsilon where documented) and have the promised shape; is_normal_form agrees with the definition. Exploration.",
+         "Trusts vlib/ref_cfg.py; language equality is decided up to length 5 only.",
+         "DESIGN.md section 4, C09"),
+ "C10": (PBT + " (set-theoretic combination of reference bounded languages)",
+         "Pairs of grammars sharing variable names (incl. names like the library's fresh symbols, the start-less CFG(), the same object twice): union, "
+         "concatenate, closures, reverse, substitute and | + ~ are extracted; bounded language (<=4) and contains (<=3) must equal the "
+         "set-theoretic combination. Exploration.",
+         "Trusts vlib/ref_cfg.py; string-valued variables only; equality decided up to length 4.",
+         "DESIGN.md section 4, C10"),
+ "C12": (PBT + " (reference fixpoints for emptiness, finiteness, symbol classes, bounded enumeration)",
+         "is_empty, is_finite, get_generating/nullable/reachable_symbols equal the reference fixpoints (two independent finiteness criteria); "
+         "get_words(n) has no duplicate, only lists of Terminal and equals the bounded language; unbounded get_words() on finite languages. Exploration.",
+         "Trusts vlib/ref_cfg.py; unbounded enumeration only when the longest word has length <=7.",
+         "DESIGN.md section 4, C12"),
  "C06": (PBT + "; round trip to_regex -> to_epsilon_nfa compared exactly with the reference automaton",
          "Epsilon-NFAs over plain-token symbols with 0-3 start states, 0-3 finals, loops, epsilon edges under 16 hash seeds (elimination order): "
          "the epsilon-NFA of to_regex() is extracted and compared exactly with the reference automaton; Regex.accepts agrees on all words <=3; "
